@@ -35,7 +35,8 @@ def isnan(x):
 class Env(object):
     """the universe as plain lists + everything the reference needs"""
 
-    def __init__(self, hist, cells, now_i=3, stat=None, signal=None, otr=None, children=None, perm=None):
+    def __init__(self, hist, cells, now_i=3, stat=None, signal=None, otr=None, children=None, perm=None, events=None):
+        self.events = events or {}
         self.labels = DATES[: now_i + 2]
         self.now_i = now_i
         self.rows = []
@@ -86,6 +87,12 @@ def build_target(env):
         kw["signal"] = env.signal
     if env.otr is not None:
         kw["otr"] = env.otr
+    if env.events:
+        now = pd.Timestamp(env.labels[env.now_i])
+        cl = env.events.get("closes", {})
+        kw["closes"] = pd.DataFrame({"date": pd.to_datetime([now + pd.Timedelta(days=d) for d in cl.values()])}, index=list(cl))
+        ro = env.events.get("rolls", {})
+        kw["rolls"] = pd.DataFrame({"date": pd.to_datetime([now + pd.Timedelta(days=v[0]) for v in ro.values()]), "target": [v[1] for v in ro.values()], "factor": [1.0 for _ in ro]}, index=list(ro))
     if any(k == "cp" for k in env.children.values()):
         kw["coupons"] = pd.DataFrame(0.0, index=pd.DatetimeIndex(env.labels), columns=COLS)
     data = env.frame()
@@ -131,6 +138,10 @@ def make(spec):
         return A.SelectTypes(include_types=tuple(T[x] for x in p[0]), exclude_types=tuple(T[x] for x in p[1]))
     if name == "SelectActive":
         return A.SelectActive()
+    if name == "ClosePositionsAfterDates":
+        return A.ClosePositionsAfterDates("closes")
+    if name == "RollPositionsAfterDates":
+        return A.RollPositionsAfterDates("rolls")
     if name == "ResolveOnTheRun":
         return A.ResolveOnTheRun("otr", include_no_data=p[0], include_negative=p[1])
     raise KeyError(name)
@@ -248,8 +259,17 @@ def ref_apply(spec, temp, env):
             sel = [s for s in sel if s in temp["selected"]]
         temp["selected"] = sel
         return True
+    if name in ("ClosePositionsAfterDates", "RollPositionsAfterDates"):
+        # whatever it holds (nothing, here): a security whose date has passed is recorded as closed / rolled
+        key, table = ("closed", env.events.get("closes", {})) if name.startswith("Close") else ("rolled", env.events.get("rolls", {}))
+        for sec, v in table.items():
+            off = v if key == "closed" else v[0]
+            if sec in env.children and env.children[sec] != "strat" and off <= 0:
+                env._ref_perm.setdefault(key, set()).add(sec)
+        return True
     if name == "SelectActive":
-        gone = set(env.perm.get("rolled", [])) | set(env.perm.get("closed", []))
+        perm = getattr(env, "_ref_perm", env.perm)
+        gone = set(perm.get("rolled", [])) | set(perm.get("closed", []))
         temp["selected"] = [s for s in temp["selected"] if s not in gone]
         return True
     if name == "ResolveOnTheRun":
@@ -316,6 +336,7 @@ def run_pipeline(env, pipeline, prior, seed=0):
     ref_temp = {}
     if prior is not None:
         ref_temp["selected"] = list(prior)
+    env._ref_perm = {k: set(v) for k, v in env.perm.items()}
     ref_res = True
     try:
         for spec in pipeline:
@@ -426,7 +447,7 @@ def cases(tier, seed):
         for c in cells[::5]:
             for f in flags[:3]:
                 for lb in (0, 1, 2, 5, 6):
-                    for mc in (1, 2, 3, 4):
+                    for mc in (0, 1, 2, 3, 4):
                         for pr in priors[:4]:
                             out.append(("SelectHasData", (h, c), [("SelectHasData", f + (lb, mc))], pr))
     # ranked selection
@@ -477,6 +498,12 @@ def cases(tier, seed):
     for perm in ({}, {"closed": ["a"]}, {"rolled": ["b"]}, {"closed": ["a"], "rolled": ["b", "c"]}, {"rolled": ["a"], "closed": ["c"]}):
         for pr in priors[1:]:
             out.append(("SelectActive", (hists_q[0], (1.0, 1.0, 1.0), {"perm": perm}), [("SelectActive", ())], pr))
+    # the close / roll algos in front of SelectActive, on securities that hold nothing when their date passes
+    kids3 = {"a": "sec", "b": "sec", "c": "sec"}
+    for ev in ({"closes": {"a": -1}}, {"closes": {"a": 0, "b": 2}}, {"rolls": {"a": [-1, "b"]}}, {"rolls": {"b": [0, "c"], "c": [3, "a"]}}, {"closes": {"c": -2}, "rolls": {"a": [-1, "b"]}}):
+        for pr in priors[1:]:
+            for pipe in ([("ClosePositionsAfterDates", ()), ("RollPositionsAfterDates", ()), ("SelectActive", ())], [("RollPositionsAfterDates", ()), ("ClosePositionsAfterDates", ()), ("SelectActive", ())]):
+                out.append(("SelectActive", (hists_q[0], (1.0, 1.0, 1.0), {"children": kids3, "events": ev}), pipe, pr))
     for c in cells[::9]:
         for f in flags:
             for pr in (["x"], ["x", "y"], ["x", "c"], ["c"], []):
@@ -516,7 +543,7 @@ def build_env(args):
     otr = None
     if extra.get("otr"):
         otr = pd.DataFrame({"x": ["a", "a", "b", "b", "c"], "y": ["c", "c", "c", "a", "a"]}, index=pd.DatetimeIndex(DATES))
-    return Env(h, c, stat=stat, signal=signal, otr=otr, children=extra.get("children"), perm=extra.get("perm")), extra.get("seed", 0)
+    return Env(h, c, stat=stat, signal=signal, otr=otr, children=extra.get("children"), perm=extra.get("perm"), events=extra.get("events")), extra.get("seed", 0)
 
 
 def chunk_case(items):
